@@ -1260,6 +1260,47 @@ pub fn families_owned_lockable() -> Vec<Pair> {
 			std_offending: None,
 		});
 	}
+	// types that merely point at a lock and can be duplicated (or made up) in
+	// safe code: if a blanket impl ever made them lockable, they still must
+	// not count as owning their locks
+	let m = "Mutex<i32>";
+	let pointers: Vec<(String, String)> = vec![
+		(String::new(), format!("std::sync::Arc<{m}>")),
+		(String::new(), format!("std::rc::Rc<{m}>")),
+		(String::new(), "std::sync::Arc<RwLock<i32>>".into()),
+		(String::new(), "std::rc::Rc<RwLock<i32>>".into()),
+		(String::new(), format!("std::sync::Arc<OwnedLockCollection<({m},)>>")),
+		(String::new(), format!("std::sync::Weak<{m}>")),
+		(String::new(), format!("std::cell::Ref<'static, {m}>")),
+		(String::new(), format!("&'static Box<{m}>")),
+		(String::new(), format!("&'static std::sync::Arc<{m}>")),
+		(String::new(), format!("*const {m}")),
+		(String::new(), format!("fn() -> &'static {m}")),
+		(String::new(), format!("std::borrow::Cow<'static, [u8]>")),
+		(
+			format!("pub struct P;\nimpl std::ops::Deref for P {{ type Target = {m}; fn deref(&self) -> &{m} {{ unreachable!() }} }}\nimpl Clone for P {{ fn clone(&self) -> P {{ P }} }}\n"),
+			"P".into(),
+		),
+		(
+			format!("#[derive(Clone)]\npub struct P;\nimpl AsRef<{m}> for P {{ fn as_ref(&self) -> &{m} {{ unreachable!() }} }}\n"),
+			"P".into(),
+		),
+		(
+			format!("#[derive(Clone)]\npub struct P;\nimpl std::borrow::Borrow<{m}> for P {{ fn borrow(&self) -> &{m} {{ unreachable!() }} }}\n"),
+			"P".into(),
+		),
+	];
+	for (k, (decl, ty)) in pointers.iter().enumerate() {
+		let prog = |bound: &str| format!("{PRELUDE}\n{decl}fn need<X: {bound}>() {{}}\npub fn probe() {{\n//<<\n    need::<{ty}>();\n//>>\n}}\n");
+		v.push(Pair {
+			prop: "C07".into(),
+			family: "C07-shareable-pointer-is-not-OwnedLockable".into(),
+			name: if decl.is_empty() { ty.clone() } else { format!("user pointer type #{k}") },
+			twin: prog("Sized"),
+			offending: prog("OwnedLockable"),
+			std_offending: None,
+		});
+	}
 	v
 }
 
